@@ -145,7 +145,11 @@ SYSTEMS = {
     "T1": System("T1", nchains=1, nfa=2, nfb=2, dihedral=False),             # 8 beads; 1-4 pair NOT excluded
     "T2": System("T2", nchains=2, nfa=1, nfb=0, dihedral=True),              # 9 beads; whole chain excluded
     "T3": System("T3", nchains=1, nfa=2, nfb=2, dihedral=False, mapped=True),  # T1 through a mapping file
+    # grid-search family: 12 beads in a large non-cubic box (4,5,6 neighbour-search cells per axis for the rdf
+    # cutoffs), coordinates NOT wrapped into [0,L): negative (just below 0, below -cell, several boxes away), beyond L
+    "T4": System("T4", nchains=1, nfa=5, nfb=3, dihedral=False),
 }
+GRID_FAMILY = ("T4",)
 
 # CG coordinates of frame A (nm, 3 decimals), displacement tables for B and C
 BASE = {
@@ -166,12 +170,52 @@ SHIFT_C = (1.700, 1.900, 0.000)          # frame C straddles two box faces
 # frame B of T1/T3: the free B bead sits 0.0866 nm from C4, i.e. inside the first BB bin [0, 0.1)
 OVERRIDE = {("T1", "B", 6): (0.700, 0.350, 0.400), ("T3", "B", 6): (0.700, 0.350, 0.400)}
 BOX = {"A": (2.000, 2.000, 2.000), "B": (2.000, 2.200, 2.500), "C": (2.400, 2.100, 2.000)}
+# --- T4: frame A is designed on the axes (x,y,z) of box (3.7,4.6,5.5): 4/5/6 cells for the cutoffs 0.85..0.9;
+# frame B = the same design on cyclically permuted axes (z,x,y) + small displacements, frame C = (y,z,x) with a
+# slightly longer last edge, whole-box shifts (unwrapped trajectory) and other displacements.
+BOX4 = {"A": (3.700, 4.600, 5.500), "B": (5.500, 3.700, 4.600), "C": (4.600, 5.500, 3.800)}
+BASE4 = [(1.000, 3.300, 2.000), (1.300, 3.300, 2.000), (1.300, 3.550, 2.100), (1.550, 3.600, 2.300),   # chain A B A B
+         (-0.450, 5.600, 1.000),    # A  x in (-cell,0) [cell N-1], y beyond L;   partner in cell N-2:
+         (2.680, 1.000, 1.000),     # A
+         (2.000, -1.400, 3.000),    # A  y below -cell [cell N-2];               partner in cell N-3:
+         (2.000, 2.680, 3.000),     # A
+         (2.950, 1.400, 1.000),     # A  centre of an A-A-A triple with the two beads above
+         (3.000, 4.000, -11.450),   # B  z three boxes below [cell N-1];          partner in cell N-2:
+         (3.000, 4.000, 4.500),     # B
+         (1.000, -0.620, 2.000)]    # B  y in (-cell,0); A-B and B-B partners (chain) in cell N-2
+D4B = [(0.010, -0.020, 0.000), (-0.010, 0.010, 0.020), (0.020, 0.000, -0.010), (0.000, 0.020, 0.010),
+       (-0.020, 0.010, 0.010), (0.010, 0.020, -0.020), (0.000, -0.010, 0.020), (0.020, 0.010, 0.000),
+       (-0.010, -0.020, 0.010), (0.010, 0.000, -0.010), (-0.020, 0.020, 0.000), (0.000, -0.010, -0.020)]
+D4C = [(-0.020, 0.010, 0.020), (0.020, 0.020, -0.010), (0.000, -0.020, 0.010), (0.010, 0.000, 0.020),
+       (0.020, -0.010, -0.020), (-0.010, 0.010, 0.000), (0.010, 0.020, 0.010), (-0.020, 0.000, -0.010),
+       (0.000, 0.010, 0.020), (-0.010, -0.020, 0.000), (0.020, 0.010, 0.010), (0.010, -0.010, 0.000)]
+K4C = [(0, 0, 0), (0, 0, 0), (0, 0, 0), (0, 0, 0), (1, 0, 0), (0, -2, 0), (0, 0, 1), (0, 0, 0),
+       (0, 1, 0), (0, 0, 0), (2, 0, -1), (0, 0, 0)]        # whole-box shifts of single (free) beads in frame C
+
+
+def box_of(sysname, letter):
+    return BOX4[letter] if sysname in GRID_FAMILY else BOX[letter]
+
+
+def cg_frame4(letter):
+    out = []
+    for i, p in enumerate(BASE4):
+        if letter == "A":
+            q = p
+        elif letter == "B":
+            q = tuple((p[2], p[0], p[1])[k] + D4B[i][k] for k in range(3))
+        else:
+            q = tuple((p[1], p[2], p[0])[k] + D4C[i][k] + K4C[i][k] * BOX4["C"][k] for k in range(3))
+        out.append(tuple(round(x, 3) for x in q))
+    return out
 # two atoms per CG bead for the mapped system: a = p - d, b = p + 3d  (weights 3:1 -> COM = p)
 DATOM = [(0.010, 0.020, -0.010), (-0.020, 0.010, 0.015), (0.015, -0.015, 0.020), (0.005, 0.025, 0.010),
          (-0.010, -0.020, 0.005), (0.020, 0.005, -0.020), (-0.015, 0.010, 0.010), (0.010, -0.010, -0.015)]
 
 
 def cg_frame(sysname, letter):
+    if sysname in GRID_FAMILY:
+        return cg_frame4(letter)
     base = BASE[sysname]
     out = []
     for i, p in enumerate(base):
@@ -206,7 +250,7 @@ def gro_frame(sysname, letter):
             for nm, q in (("a%d" % k, a), ("b%d" % k, b)):
                 n += 1
                 lines.append("%5d%-5s%5s%5d%8.3f%8.3f%8.3f" % (molid + 1, molname, nm, n, q[0], q[1], q[2]))
-    bx = BOX[letter]
+    bx = box_of(sysname, letter)
     return "frame %s t= 0.0\n%5d\n%s\n%10.5f%10.5f%10.5f\n" % (letter, len(lines), "\n".join(lines), bx[0], bx[1], bx[2])
 
 
@@ -253,8 +297,9 @@ SETS = {
     "S3": [("AA", "g"), ("AB", "g"), ("bond", "g"), ("angle", "none")],
     "S4": [("BB", "h"), ("AB", "g"), ("AAA", "none"), ("angle", "h")],
     "S5": [("dih", "none"), ("AA", "g"), ("ABB", "none")],
+    "S6": [("AA", "g"), ("AB", "g"), ("BB", "h"), ("AAA", "none"), ("bond", "h")],
 }
-SETS_OF = {"T1": ["S1", "S2", "S3", "S4"], "T2": ["S1", "S3", "S5", "S4"], "T3": ["S3", "S2"]}
+SETS_OF = {"T1": ["S1", "S2", "S3", "S4"], "T2": ["S1", "S3", "S5", "S4"], "T3": ["S3", "S2"], "T4": ["S6", "S1"]}
 
 
 def is_bonded(n):
@@ -267,8 +312,10 @@ def set_order(sname):
     return [n for n in names if not is_bonded(n)] + [n for n in names if is_bonded(n)]
 
 
-def settings_xml(sname, imc):
+def settings_xml(sname, imc, nb=None):
     s = "<cg>\n"
+    if nb:
+        s += " <nbsearch>%s</nbsearch>\n" % nb
     for n, g in SETS[sname]:
         d = INTER[n]
         grp = ("<inverse><imc><group>%s</group></imc></inverse>" % g) if imc else ""
@@ -509,6 +556,65 @@ class Model:
         return out
 
 
+# ----------------------------------------------------------------------------- alphabet self-check (grid family)
+
+def _cell(r, box, N, trunc):
+    """cell index per axis as NBListGrid::getCell computes it (orthorhombic box); trunc=True emulates a cell index
+    obtained by truncation toward zero instead of floor"""
+    out = []
+    for k in range(3):
+        x = r[k] * N[k] / box[k]
+        a = int(x) if trunc else math.floor(x)
+        if a < 0:
+            a = N[k] + int(math.fmod(a, N[k]))      # C++ remainder (sign of the dividend)
+        out.append(a % N[k])
+    return out
+
+
+def _adjacent(c1, c2, N):
+    """axes on which the two cells are NOT neighbours (cells see -1..+1, everything for N < 3... N=3 wraps fully)"""
+    bad = []
+    for k in range(3):
+        d = (c1[k] - c2[k]) % N[k]
+        if N[k] > 3 and d not in (0, 1, N[k] - 1):
+            bad.append(k)
+    return bad
+
+
+def grid_sensitivity():
+    """for every frame of the grid family and every rdf: pairs (inside the histogram range) that a cell list with a
+    TRUNCATED cell index would lose.  Raises DesignError when a frame/interaction has none, or when the flooring
+    emulation itself loses a pair (then the emulation is wrong)."""
+    res = {}
+    for sysname in GRID_FAMILY:
+        sy = SYSTEMS[sysname]
+        for L in "ABC":
+            box, pos = parse_gro(gro_frame(sysname, L), sy)[0]
+            for name in ("AA", "AB", "BB"):
+                d = INTER[name]
+                mn, mx, st = float(d[3]), float(d[4]), float(d[5])
+                cut = mx + st
+                N = [max(int(box[k] / cut), 1) for k in range(3)]
+                l1, l2 = sy.ntype(d[1]), sy.ntype(d[2])
+                pairs = [(a, b) for a in l1 for b in l1 if a < b] if d[1] == d[2] else [(a, b) for a in l1 for b in l2]
+                lost = []
+                for a, b in pairs:
+                    if (min(a, b), max(a, b)) in sy.excl:
+                        continue
+                    r = norm(conn(pos[a], pos[b], box))
+                    if not (mn - 0.5 * st <= r < mx + 0.5 * st):
+                        continue
+                    if _adjacent(_cell(pos[a], box, N, False), _cell(pos[b], box, N, False), N):
+                        raise DesignError("cell-grid emulation loses pair %d-%d of %s in frame %s" % (a, b, name, L))
+                    bad = _adjacent(_cell(pos[a], box, N, True), _cell(pos[b], box, N, True), N)
+                    if bad:
+                        lost.append((a, b, "xyz"[bad[0]], N[bad[0]]))
+                if not lost:
+                    raise DesignError("frame %s of %s has no %s pair that is sensitive to the cell index of unwrapped coordinates" % (L, sysname, name))
+                res[(sysname, L, name)] = lost
+    return res
+
+
 # ----------------------------------------------------------------------------- running the tool
 
 CSG_STAT = None
@@ -516,7 +622,7 @@ RUNNO = [0]
 LOADER_RETRIES = [0]
 
 
-def run_tool(sysname, sname, hist, bl, ff, nf, intra, imc, nt, keep=None):
+def run_tool(sysname, sname, hist, bl, ff, nf, intra, imc, nt, keep=None, nb=None):
     """runs the real csg_stat in a fresh directory. returns (rc, {filename: bytes}, stdout, trajectory text)"""
     global CSG_STAT
     if CSG_STAT is None:
@@ -526,7 +632,7 @@ def run_tool(sysname, sname, hist, bl, ff, nf, intra, imc, nt, keep=None):
     wd = os.path.abspath("run%d" % RUNNO[0]) if keep is None else os.path.abspath(keep)
     shutil.rmtree(wd, ignore_errors=True)
     os.makedirs(wd)
-    inputs = {"topol.xml": sy.topology_xml(), "settings.xml": settings_xml(sname, imc),
+    inputs = {"topol.xml": sy.topology_xml(), "settings.xml": settings_xml(sname, imc, nb),
               "traj.gro": "".join(gro_frame(sysname, L) for L in hist)}
     cmd = [CSG_STAT, "--top", "topol.xml", "--trj", "traj.gro", "--options", "settings.xml", "--nt", str(nt)]
     if sy.mapped:
@@ -800,6 +906,20 @@ def evaluate(c, R=None, verbose=False):
                           "interaction of the xml topology twice" % diff))
         else:
             fails.append(("nt2-differs-from-nt1", "--nt 2 output differs from --nt 1 in %s" % diff))
+    # grid family: <nbsearch>grid</nbsearch> (explicit) and <nbsearch>simple</nbsearch> must write the same files
+    # as the default.  (csg_stat uses NBListGrid for BOTH values for pair interactions, so for the rdfs this only
+    # checks the option path; for three-body interactions 'simple' is the O(N^3) NBList_3Body, a real differential.)
+    if sysname in GRID_FAMILY:
+        for nb in ("grid", "simple"):
+            rcb, filesb, sob, _ = run_tool(sysname, sname, hist, bl, ff, nf, intra, imc, 1, nb=nb)
+            nruns += 1; nframes += len(processed)
+            if rcb != 0:
+                fails.append(("tool-failed", "nbsearch=%s: exit status %s: %s" % (nb, rcb, sob.strip()[-200:])))
+            elif filesb != files:
+                diff = sorted(fn for fn in set(files) | set(filesb) if files.get(fn) != filesb.get(fn))
+                fails.append(("nbsearch-%s-differs-from-default" % nb, "<nbsearch>%s</nbsearch> output differs from the default (grid) in %s" % (nb, diff)))
+            elif R is not None:
+                R.count("nbsearch_%s_identical" % nb)
     # dedupe keys
     out, seen = [], set()
     for k, t in fails:
@@ -836,11 +956,27 @@ def enumerate_cases(tier):
                             continue            # selection is the identity (covered by (0,0))
                         for intra, imc in modes:
                             cases.append((sysname, sname, hist, bl, ff, nf, intra, imc))
+    # grid-search family T4 (a handful in quick): all histories of length <= 2 (quick) / <= 3 (thorough)
+    for hist in hists:
+        if tier == "quick" and len(hist) > 2:
+            continue
+        for sname in (["S6"] if tier == "quick" else SETS_OF["T4"]):
+            for bl in ([0, 1] if tier == "quick" else [0, 1, 2]):
+                for ff, nf in ([(0, 0)] if tier == "quick" else [(0, 0), (2, 2)]):
+                    if len(selected(hist, ff, nf)) == 0:
+                        continue
+                    for intra, imc in modes:
+                        cases.append(("T4", sname, hist, bl, ff, nf, intra, imc))
     return cases
 
 
 RULE = ("alphabet: frames {A,B,C} (boxes 8.0/11.0/10.08 nm^3, one pair exactly on a bin centre, pairs exactly on bin edges, "
-        "pairs across box faces) of 3 systems (T1 8 beads, T2 9 beads incl. dihedral, T3 = T1 as 16 atoms through a --cg mapping); "
+        "pairs across box faces) of 3 systems (T1 8 beads, T2 9 beads incl. dihedral, T3 = T1 as 16 atoms through a --cg mapping) "
+        "+ grid-search family T4: 12 beads in boxes 3.7x4.6x5.5 and axis permutations (4/5/6 resp. 5/6/7 neighbour-search cells per "
+        "axis, 3/4/5 for the cross-type rdf) with UNWRAPPED coordinates (in (-cell,0), below -cell, 2-3 box lengths below 0, beyond L), "
+        "pairs within the cutoff only through the periodic image and between the last two cell layers on every axis, run with "
+        "nbsearch default/grid/simple (byte identical); a Python emulation of the cell grid asserts at start-up that in every T4 frame "
+        "a truncating (instead of flooring) cell index would lose pairs of every rdf; "
         "bound: ALL frame sequences of length 1..3 (39) x block lengths x first-frame/nframes selections x interaction sets "
         "(same-type rdf from 0, cross-type rdf from min>0, rdf whose first bin starts at r=0, bond, angle, dihedral, two three-body "
         "angular) x {plain, --include-intra, --do-imc}; every case additionally run with --nt 2 (byte identical) and, per block, "
@@ -871,6 +1007,11 @@ def main():
         "ranges that are not a multiple of the step are not in the alphabet (undefined bin layout)",
     ]
     cases = enumerate_cases(a.tier)
+    sens = grid_sensitivity()
+    if a.shard == 0:
+        R.count("grid_family_pairs_sensitive_to_cell_index_of_unwrapped_coordinates", sum(len(v) for v in sens.values()))
+        R.sample("grid family: pairs a truncating cell index would lose (bead a, bead b, axis, cells on that axis): " +
+                 "; ".join("%s/%s/%s %s" % (k[0], k[1], k[2], v) for k, v in sorted(sens.items())))
     states, transitions, traces = set(), 0, 0
     units = {}
     for c in cases:      # sharding unit = (system, set, mode, block length): the memo of fresh block runs stays effective
